@@ -87,6 +87,7 @@ void run_case(const uint8_t* data, size_t size, vf::Case& c) {
   vf::UrlCase uc = vf::decode_url_case(bs, 4, true);
   c.hash = vf::hash_case(uc);
   if (c.want_render) c.render = vf::render_case(uc);
+  vf::warm_siblings(uc.input, uc.has_base ? &uc.base : nullptr, c.hash);  // a related input is parsed first (results ignored)
   bool pu = false, pa = false;
   std::string d = run_type<ada::url>("ada::url", uc, pu);
   if (!d.empty()) return c.fail(d);
